@@ -140,6 +140,13 @@ func (c12) Gen(r *Rand, idx int, tier string) interface{} {
 		if r.Pct(20) && t.Rounds > 0 {
 			t.Split = true
 			t.Rounds += r.Intn(3)
+			if t.Fill == 0 && r.Pct(50) {
+				// a pipelined sender writes long requests while the sizes announced in the answers arrive
+				t.Fill = 1 + r.Intn(2)
+			}
+			if t.EnvSize == 0 && r.Pct(40) {
+				t.EnvSize = Pick(r, []int{1024, 600, 2048})
+			}
 		}
 		p.Tasks = append(p.Tasks, t)
 	}
@@ -462,6 +469,24 @@ func (c12) Run(plan interface{}, schedSeed uint64, replay []simrt.Choice, lenien
 		if m.Type == peer.BufLogout || (len(m.Body) > 0 && m.Body[0] == 0x71) {
 			enqueue(m.Channel, peer.Packetise(peer.Done(0, 0, 0), nil, peer.BufResponse, m.Channel, true))
 			return
+		}
+		// the request is one LANGUAGE package: token, 32-bit length of what follows, status, text - the command
+		// and nothing but padding spaces behind it; a message that lost bytes on its way does not look like that
+		if b := m.Body; p.CloseEarly == 0 {
+			ok := len(b) >= 6 && b[0] == 0x21 && int(uint32(b[1])|uint32(b[2])<<8|uint32(b[3])<<16|uint32(b[4])<<24) == len(b)-5 && b[5] == 0
+			if ok {
+				seenSpace := false
+				for _, c := range b[6:] {
+					if c == ' ' {
+						seenSpace = true
+					} else if seenSpace || !(c == 't' || c == 'r' || c == 'n' || (c >= '0' && c <= '9')) {
+						ok = false
+					}
+				}
+			}
+			if !ok {
+				wireViol = append(wireViol, fmt.Sprintf("request-damaged|channel %d: the request does not arrive as the LANGUAGE package that was sent (%d bytes: % x ...)", m.Channel, len(b), b[:min(len(b), 24)]))
+			}
 		}
 		// request: language "t<task>r<round>n<pkgs>"
 		var task, round, n int
@@ -1047,4 +1072,11 @@ func c12RunChaos(p *c12Plan, schedSeed uint64, replay []simrt.Choice, lenient, k
 	}
 	v.Sample = map[string]interface{}{"chaos_tasks": len(p.Chaos), "steps": out.Steps}
 	return v, out
+}
+
+func min(a, b int) int {
+	if a < b {
+		return a
+	}
+	return b
 }
